@@ -311,7 +311,7 @@ Proof. exact lock_sites_example. Qed.
    receives its complete, unmodified response" hold only if such an object has one holder at a
    time.  The pool itself guarantees nothing of the kind: it hands out what was put into it.
 
-   Vocabulary: Spec/PoolSpec.v.  A trace is a list of [PGet o h] / [PPut o h] (holder h was handed
+   Vocabulary: Spec/PoolTraceSpec.v.  A trace is a list of [PGet o h] / [PPut o h] (holder h was handed
    object o / put it back).  [disciplined es]: every Get returns an object of the pool or a new
    one (the pool's half, [get_legal]) and every Put is preceded by a Get of that object by that
    holder that no Put has answered yet (the users' half, [put_matched]: nobody puts an object back
@@ -339,7 +339,7 @@ Proof. exact lock_sites_example. Qed.
    the release sites of its life cycle.  That is read off the guards by hand (Model/PoolSites.v)
    and tested by the recorded traces of (2); the frame pool and the relay's timer pool are outside
    the census (C12 / C03, C09), their sites are in the table. *)
-From Verif Require Import Spec.PoolSpec Model.PoolTrace Model.PoolSites Gen.GenSyncPools
+From Verif Require Import Spec.PoolTraceSpec Model.PoolTrace Model.PoolSites Gen.GenSyncPools
   Proofs.PoolTraceP Proofs.PoolSitesP.
 
 (* (1) pool discipline => exclusive ownership *)
